@@ -15,6 +15,12 @@ PINS = [
  ("c19_release_exactly_at_zero", "own_release_exactly_at_zero", "a drop releases exactly the nodes whose strong count goes from positive to zero"),
  ("c19_reassign_release_exactly_at_zero", "own_put_release_exactly_at_zero", "same for the implicit drop of a re-assigned slot"),
  ("c19_adjacency_never_owns", "own_heap_irrelevant", "connect/disconnect/isolate (heap-only changes) change neither ownership nor the released set"),
+ ("c19_object_keeps_its_nodes_alive", "own_object_keeps_alive", "whatever object sits in a slot (handle, edge, path, result vector, container — built only through the API layer aop_oop): none of the nodes it owns has been released"),
+ ("c19_edge_owns_its_endpoints", "edge_owns_endpoints", "an Edge owns both nodes it mentions"),
+ ("c19_path_owns_its_nodes", "path_owns_endpoints", "a Path / Vec<Edge> owns both endpoints of every edge it contains"),
+ ("c19_container_owns_its_members", "graph_owns_members", "a container owns every node it binds"),
+ ("c19_container_insert_releases_nothing", "own_container_insert_releases_nothing", "Graph::insert never releases a node value"),
+ ("c19_container_remove_releases_nothing", "own_container_remove_releases_nothing", "Graph::remove hands the node out and releases nothing (neither the removed node nor any other member)"),
  ("c19_invariant_initial", "own_init_ok", "the invariant used above holds initially"),
  ("c19_invariant_step", "own_step_ok", "and is preserved by every legal step"),
 ]
